@@ -65,11 +65,15 @@ Params(fam, xs) ==
                ELSE {})
     [] fam = "recip" -> IF xs > 3 THEN {} ELSE {P(fam, xs, a, b, 0, 0, 0, 0) : a \in 1..4, b \in 1..4}
     [] fam = "cast" -> IF xs > 3 THEN {} ELSE {P(fam, xs, a, b, c, 0, 0, 0) : a \in 1..2, b \in 1..3, c \in 0..1}
-    [] fam = "matmuladd" -> {P(fam, xs, a, b, c, d, 0, 0) : a \in 1..4, b \in 1..6, c \in 0..1, d \in 0..1}
-    [] fam = "matmulscale" -> {P(fam, xs, a, b, c, d, e, 0) : a \in 1..4, b \in 1..4, c \in 1..7, d \in 1..3, e \in 1..2}
+    \* e = 1: near miss Sub instead of Add (never fused)
+    [] fam = "matmuladd" -> {P(fam, xs, a, b, c, d, e, 0) : a \in 1..4, b \in 1..6, c \in 0..1, d \in 0..1, e \in 0..1}
+    \* d = 4: near miss c / x (scalar divided BY the tensor: not a scaling); f = 1: near miss, the first
+    \* intermediate of the pattern is also a graph output (apply_fusion guard)
+    [] fam = "matmulscale" -> {P(fam, xs, a, b, c, d, e, f) : a \in 1..4, b \in 1..4, c \in 1..7, d \in 1..4, e \in 1..2, f \in 0..1}
     [] fam = "repint" -> {P(fam, xs, a, b, c, d, 0, 0) : a \in 0..Len(XS4[xs]), b \in 0..1, c \in 0..(Len(XS4[xs]) - 1), d \in 0..1}
     [] fam = "reducemean" -> {P(fam, xs, a, b, c, 0, 0, 0) : a \in 1..4, b \in 0..1, c \in 0..2}
-    [] fam = "shapeslice" -> {P(fam, xs, a, b, 0, 0, 0, 0) : a \in 0..8, b \in 0..8}
+    \* c = 1: near miss with an explicit `axes` input (the pattern has exactly three inputs)
+    [] fam = "shapeslice" -> {P(fam, xs, a, b, c, 0, 0, 0) : a \in 0..8, b \in 0..8, c \in 0..1}
 
 MMB == << <<2>>, <<2, 1>>, <<1, 2>>, <<2, 2>> >>          \* right-hand MatMul operand shapes
 MMA == << <<2>>, <<1, 2>>, <<2, 1>>, <<2, 2>> >>          \* left-hand shapes
@@ -103,24 +107,28 @@ Build(q) ==
              x == Tn("x", "f32", ash, XData(ash, 1))
              w == Tn("w", "f32", bsh, XData(bsh, 1))
              bias == Tn("c1", "f32", BiasS[q.b], XData(BiasS[q.b], 10))
-         IN [nodes |-> <<Nd("MatMul", <<"x", "w">>, <<"t1">>, NA), Bin("Add", "t1", "c1", q.d, "y")>>,
+         IN [nodes |-> <<Nd("MatMul", <<"x", "w">>, <<"t1">>, NA), Bin(IF q.e = 1 THEN "Sub" ELSE "Add", "t1", "c1", q.d, "y")>>,
              inits |-> <<w, bias>>, feeds |-> <<x>>,
              outputs |-> IF q.c = 1 THEN <<"y", "t1">> ELSE <<"y">>]
     [] q.fam = "matmulscale" ->
          LET ash == MMA[q.xs] bsh == MMB[q.a]
              x == Tn("x", "f32", ash, XData(ash, 4))
              cs == CS[q.b]
-             sc == Tn("c1", "f32", cs, Fill(cs, IF q.e = 1 THEN 2 ELSE 4))
+             \* (c / x uses a constant every data value divides, so that the original stays exact)
+             sc == Tn("c1", "f32", cs, Fill(cs, IF q.d = 4 THEN (IF q.e = 1 THEN 48 ELSE 96) ELSE IF q.e = 1 THEN 2 ELSE 4))
              Sc(v, out) == CASE q.d = 1 -> Nd("Mul", <<v, "c1">>, <<out>>, NA)
                              [] q.d = 2 -> Nd("Mul", <<"c1", v>>, <<out>>, NA)
                              [] q.d = 3 -> Nd("Div", <<v, "c1">>, <<out>>, NA)
+                             [] q.d = 4 -> Nd("Div", <<"c1", v>>, <<out>>, NA)
              L == q.c % 2 = 1  R == (q.c \div 2) % 2 = 1  O == q.c \div 4 = 1
              pre == (IF L THEN <<Sc("x", "t1")>> ELSE <<>>) \o (IF R THEN <<Sc("w2", "t2")>> ELSE <<>>)
              mm == Nd("MatMul", <<IF L THEN "t1" ELSE "x", IF R THEN "t2" ELSE "w2">>, <<IF O THEN "t3" ELSE "y">>, NA)
              post == IF O THEN <<Sc("t3", "y")>> ELSE <<>>
              \* the right operand is a second graph input so that its scaling is not constant-folded
              w2 == Tn("w2", "f32", bsh, XData(bsh, 4))
-         IN [nodes |-> pre \o <<mm>> \o post, inits |-> <<sc>>, feeds |-> <<x, w2>>, outputs |-> <<"y">>]
+             nodes == pre \o <<mm>> \o post
+         IN [nodes |-> nodes, inits |-> <<sc>>, feeds |-> <<x, w2>>,
+             outputs |-> IF q.f = 1 /\ Len(nodes) >= 2 THEN <<"y", nodes[1].outs[1]>> ELSE <<"y">>]
     [] q.fam = "repint" ->
          LET xsh == XS4[q.xs] r == Len(xsh)
              x == Tn("x", "f32", xsh, XData(xsh, 1))
@@ -142,8 +150,9 @@ Build(q) ==
     [] q.fam = "shapeslice" ->
          LET xsh == << <<2>>, <<1, 2>>, <<2, 1>>, <<2, 2, 3>> >>[q.xs]
              x == Tn("x", "f32", xsh, XData(xsh, 1))
-         IN [nodes |-> <<Nd("Shape", <<"x">>, <<"t1">>, NA), Nd("Slice", <<"t1", "c1", "c2">>, <<"y">>, NA)>>,
-             inits |-> <<Tn("c1", "i32", <<1>>, <<q.a - 4>>), Tn("c2", "i32", <<1>>, <<q.b - 4>>)>>,
+         IN [nodes |-> <<Nd("Shape", <<"x">>, <<"t1">>, NA),
+                         Nd("Slice", IF q.c = 1 THEN <<"t1", "c1", "c2", "c3">> ELSE <<"t1", "c1", "c2">>, <<"y">>, NA)>>,
+             inits |-> <<Tn("c1", "i32", <<1>>, <<q.a - 4>>), Tn("c2", "i32", <<1>>, <<q.b - 4>>), Tn("c3", "i32", <<1>>, <<0>>)>>,
              feeds |-> <<x>>, outputs |-> <<"y">>]
 
 ---------------------------------------------------------------------------
@@ -470,15 +479,15 @@ PClass(q) ==
     [] q.fam = "matmuladd" ->
          LET bs == BiasS[q.b] bsh == MMB[q.a] n == IF Len(bsh) = 1 THEN 1 ELSE bsh[2]
              dot == IF Len(MMA[q.xs]) = 1 /\ Len(bsh) = 1 THEN "dot_" ELSE ""
-         IN IF Len(bs) # 1 THEN "bias_rank"
+         IN IF q.e = 1 THEN "nm_sub" ELSE IF Len(bs) # 1 THEN "bias_rank"
             ELSE dot \o (IF bs[1] = n THEN "bias_vec_n" ELSE IF bs[1] = 1 THEN "bias_vec_1" ELSE "bias_vec_other")
-    [] q.fam = "matmulscale" -> ConstClass(CS[q.b])
+    [] q.fam = "matmulscale" -> IF q.d = 4 THEN "nm_c_div_x" ELSE IF q.f = 1 THEN "nm_dup_output" ELSE ConstClass(CS[q.b])
     \* new axis right after the multiplied axis: interleave; right before it: tile (the same thing for an
     \* axis of extent 1); anywhere else the Reshape moves elements across axes
     [] q.fam = "repint" -> IF q.a = q.c + 1 \/ (q.a = q.c /\ XS4[q.xs][q.c + 1] = 1) THEN "interleave"
                            ELSE IF q.a = q.c THEN "tile" ELSE "cross_axis"
     [] q.fam = "reducemean" -> IF q.a = 1 THEN (IF q.c = 1 THEN "empty_axes_noop1" ELSE "empty_axes_noop0") ELSE "axes"
-    [] q.fam = "shapeslice" -> "plain"
+    [] q.fam = "shapeslice" -> IF q.c = 1 THEN "nm_axes" ELSE "plain"
 CaseJ(q, gr, rules) ==
   [fam |-> "mc_" \o q.fam, pat |-> "", variant |-> PClass(q), tol |-> "std",
    nodes |-> [i \in 1..Len(gr.nodes) |-> NodeJ(gr.nodes[i])],
